@@ -5,7 +5,7 @@ From Coq Require Import QArith Qcanon ZArith List Arith Bool Permutation.
 From Verif.lib Require Import Bsp NpCore NpQ NpF.
 From Verif.C02 Require Import Proofs.
 From Verif.C02 Require Proofs_ref.
-From Verif.C19 Require Import Model Model2 Proofs Proofs2 Proofs3 Proofs4 Proofs5 Proofs6 Proofs7 Proofs8 Proofs9 FloatProofs.
+From Verif.C19 Require Import Model Model2 Proofs Proofs2 Proofs3 Proofs4 Proofs5 Proofs6 Proofs7 Proofs8 Proofs9 Proofs10 Proofs11 FloatProofs.
 Import ListNotations.
 Open Scope Qc_scope.
 
@@ -323,6 +323,17 @@ Theorem mesh_support_idx_ordered : forall kv p j, kv_valid kv = true -> (j + p +
 Proof. exact mesh_support_idx_ordered_l. Qed.
 Print Assumptions mesh_support_idx_ordered.
 
+(* the non-empty knot spans inside the support of B-spline j (nonempty_span kv i = kv[i] < kv[i+1]) are, in
+   order, the mesh cells lo .. hi-1 of mesh_support_idx j = (lo, hi): there are hi - lo of them and they
+   are exactly the entries of mesh_span_indices lying in j .. j+p *)
+Theorem support_cells : forall kv p j, kv_valid kv = true -> (j + p + 1 < length kv)%nat ->
+  let '(lo, hi) := mesh_support_idx kv p j in
+  let spans := filter (nonempty_span kv) (seq j (p + 1)) in
+  map (k2m kv) spans = seq lo (hi - lo) /\ length spans = (hi - lo)%nat /\
+  (forall i, In i spans <-> (In i (mesh_span_indices kv) /\ (j <= i < j + p + 1)%nat)).
+Proof. exact support_cells_l. Qed.
+Print Assumptions support_cells.
+
 (* support() = (mesh[0], mesh[numspans]) *)
 Theorem support_all_mesh : forall kv, kv_valid kv = true -> kv <> [] ->
   support_all kv = (nth 0 (mesh kv) 0, nth (numspans kv) (mesh kv) 0).
@@ -374,6 +385,16 @@ Theorem refine_nested : forall kv new_knots p,
 Proof. exact refine_nested_l. Qed.
 Print Assumptions refine_nested.
 
+(* Spline.derivative returns a well-formed spline: kv[1:-1] satisfies kv_ok at degree p-1 (so the
+   theorems of C02 and derivative_spline apply to it again) and the coefficient vector has exactly its
+   numdofs = numdofs - 1 entries (the assertion of Spline.__init__) *)
+Theorem derivative_wellformed : forall kv q c, let p := S q in kv_ok kv p -> length c = numdofs kv p ->
+  kv_ok (derivative_kv kv) q /\
+  length (derivative_coeffs kv p c) = numdofs (derivative_kv kv) q /\
+  numdofs (derivative_kv kv) q = (numdofs kv p - 1)%nat.
+Proof. exact derivative_wellformed_l. Qed.
+Print Assumptions derivative_wellformed.
+
 (* NOT PROVED -- what remains without a theorem, clause by clause of the property text:
    "open, non-decreasing, exactly n spans, equally spaced ending at b, multiplicities, numdofs":
        all theorems over exact rationals (the make_knots_... theorems).  In binary64 only the bounded
@@ -395,7 +416,8 @@ Print Assumptions refine_nested.
        (eq_refl, eq_sym; np.allclose form refuted).  The binary64 evaluation of __eq__ is compared away
        from the threshold and scanned over adjacent floats for asymmetry; no theorem about the float
        comparison (it is symmetric by commutativity of IEEE |x-y| and max, which is not formalised).
-   "derivative of a spline as a spline equals its pointwise derivative": theorem (derivative_spline) against
+   "derivative of a spline as a spline equals its pointwise derivative": theorems (derivative_spline,
+       derivative_wellformed) against
        C02's dNref; that dNref is the analytic derivative of Nref away from knots is C02's business;
        scipy's splev (Spline.eval / deriv) is not modelled, only compared with itself by the oracle.
    Not modelled at all: KnotVector.copy/__str__/__repr__, numdofs(kvs) for tuples. *)
